@@ -28,8 +28,7 @@ def run(chk, program, tier):
                  ('JSON-TYPES', 'default hook covers non-native types'), ('JSON-BACK', 'from_json rebuilds message and fields'), ('JSON-RAW-FIRST', 'encoders prefer raw values')):
         chk.rule(r, t)
     consts = F.module_consts(program)
-    sf = F.split_facts(program)
-    cf = F.ctor_facts(program)
+    sf, cf = F.facts_or_none(program)
     stages = {'_decode': F.stage_events(program, '_decode'), '_call_decode_function': F.stage_events(program, '_call_decode_function')}
     fn, ex = stages['_call_decode_function']
     writes = [(i, e) for i, e in enumerate(ex.events) if e[0] == 'expr' and e[2][0] == 'call' and e[2][1][0] == 'attr' and e[2][1][2] == 'write'
@@ -88,8 +87,8 @@ def run(chk, program, tier):
                       detail=f"{len(lst)} dump lists of this shape disagree, e.g. dump_pgns={list(lst[0])} for PGN {P} id {ID}")
     chk.unit('dump_models', nm)
     chk.floor('dump_models', nm, 200)
-    a = cf['assigns']
-    n = F.norm_rule(chk, program, 'DUMP-NORM', {a['dump_pgns'][1]}, {a['dump_pgns'][0]}, ['_call_decode_function'], consts)
+    dump_names = F.attr_names(program, cf)['dump_pgns']
+    n = F.norm_rule(chk, program, 'DUMP-NORM', {dump_names[1]}, {dump_names[0]}, ['_call_decode_function'], consts)
     chk.floor('dump_membership_tests', n, 2)
     dump_file(chk, program)
     json_rules(chk, program)
@@ -133,7 +132,7 @@ def message_fields(chk, program):
                       found=ann, detail='' if ok else 'to_json dumps every attribute of the message and from_json rebuilds only `fields`: this attribute comes back as plain dicts/lists and whatever reads it afterwards (e.g. the encoders through get_field_by_id) fails')
     tj = program.fn('message', 'NMEA2000Message.to_json')
     dumps = [x for x in ast.walk(tj) if isinstance(x, ast.Call) and ast.unparse(x.func) == 'orjson.dumps']
-    whole = bool(dumps) and dumps[0].args and ast.unparse(dumps[0].args[0]) in ('self.__dict__', 'self', 'asdict(self)', 'dataclasses.asdict(self)')
+    whole = bool(dumps) and dumps[0].args and ast.unparse(dumps[0].args[0]) in ('self.__dict__', 'self', 'asdict(self)', 'dataclasses.asdict(self)', 'vars(self)')
     chk.check(whole, 'JSON-BACK', 'to_json::dumps-whole-object', file=MSG, line=tj.lineno, func='to_json', expected='the whole message object is serialised', found=ast.unparse(dumps[0].args[0]) if dumps and dumps[0].args else None, nontrivial=False)
     chk.floor('message_dataclass_fields', n, 10)
 
@@ -154,8 +153,111 @@ def dump_file(chk, program):
     ex = program.fn('decoder', 'NMEA2000Decoder.__exit__')
     chk.check(any(isinstance(n, ast.Call) and ast.unparse(n.func) == 'self.close' for n in ast.walk(ex)), 'DUMP-TEXT', '__exit__-closes', file=DEC, line=ex.lineno, func='__exit__', expected='self.close()', found='?', nontrivial=False)
 
+def json_semantic(chk, program):
+    """to_json / from_json interpreted (absint).  to_json: what is handed to orjson.dumps must be the message's own attribute dictionary (or the
+    message), with a `default` hook; the hook, called on bytes, a bytearray, a timedelta and an object of another class, must give hex text,
+    hex text, total_seconds() and raise TypeError.  from_json: the parsed dictionary goes to NMEA2000Message(**d) and every entry of d['fields']
+    comes back as NMEA2000Field(**entry), in order, as the message's field list.  -> True when decided"""
+    from .. import absint as A
+    from ..wire import is_logger
+    mod = program.mod('message')
+    menv = A.ModuleEnv(mod.tree)
+    cls = program.cls('message', 'NMEA2000Message')
+    methods = {n.name: n for n in cls.body if isinstance(n, ast.FunctionDef)}
+    tj = program.fn('message', 'NMEA2000Message.to_json')
+    fj = program.fn('message', 'NMEA2000Message.from_json')
+    # ---- to_json
+    rec = {}
+    def hook(it, call, env):
+        name = ast.unparse(call.func)
+        if name == 'orjson.dumps':
+            rec['args'] = [it.expr(a, env) for a in call.args]
+            rec['kw'] = {k.arg: (it.expr(k.value, env) if k.arg != 'option' else k.value) for k in call.keywords}
+            rec['n'] = rec.get('n', 0) + 1
+            return A.AOpaque('json')
+        return NotImplemented
+    msg = A.AObj(PGN=A.AInt(1), id=A.AStr([('lit', 'x')]), fields=A.AList([]))
+    msg.attrs['__class__'] = 'NMEA2000Message'
+    try:
+        r = A.Interp(hook=hook, skip=is_logger, methods=methods, module=menv).call_function(tj, [msg])
+    except (A.Unknown, A.RaiseSignal) as u:
+        chk.unit('to_json_not_interpretable', str(u))
+        return False
+    a0 = rec.get('args', [None])[0] if rec.get('args') else None
+    whole = rec.get('n') == 1 and (a0 is msg or (isinstance(a0, A.ADictOf) and a0.obj is msg))
+    chk.check(whole, 'JSON-BACK', 'to_json::dumps-whole-object', file=MSG, line=tj.lineno, func='to_json', expected='the whole message object is serialised, once', found=repr(a0), nontrivial=False)
+    hookf = rec.get('kw', {}).get('default')
+    okd = rec.get('n') == 1 and isinstance(hookf, A.AFunc) and isinstance(r, (A.AOpaque, A.AStr)) and 'json' in repr(r)
+    chk.check(okd, 'JSON-TYPES', 'to_json::orjson-with-default', file=MSG, line=tj.lineno, func='to_json', expected='returns the text of orjson.dumps(<object graph>, default=<hook>)',
+              found={'dumps_calls': rec.get('n', 0), 'default': repr(hookf), 'returns': repr(r)[:60]})
+    if isinstance(hookf, A.AFunc):
+        def call_hook(v):
+            def hk(it, call, env):
+                f = call.func
+                if isinstance(f, ast.Attribute) and f.attr == 'total_seconds':
+                    o = it.expr(f.value, env)
+                    if isinstance(o, A.AObj) and o.attrs.get('__class__') == 'timedelta':
+                        return A.AObj(total_seconds_of=o)
+                return NotImplemented
+            try:
+                return ('return', A.Interp(hook=hk, skip=is_logger, module=menv).call_function(hookf.fn, [v], closure=hookf.closure))
+            except A.RaiseSignal as rs:
+                return ('raise', A.exc_kind(rs))
+        td = A.AObj(); td.attrs['__class__'] = 'timedelta'
+        other = A.AObj(); other.attrs['__class__'] = 'SomethingElse'
+        try:
+            got = {'bytes': call_hook(A.ABytes([('c', 1), ('c', 0xab)])), 'bytearray': call_hook(A.ABytes([('c', 1), ('c', 0xab)], True)), 'timedelta': call_hook(td), 'other': call_hook(other)}
+        except A.Unknown as u:
+            chk.unknown('JSON-TYPES', 'to_json::default-hook', f"hook not interpretable: {u}", MSG, hookf.fn.lineno)
+            got = None
+        if got is not None:
+            def is_hex(x):
+                return x[0] == 'return' and isinstance(x[1], A.AStr) and (x[1].literal() == '01ab' or (len(x[1].pieces) == 1 and x[1].pieces[0][0] == 'hexbytes' and list(x[1].pieces[0][1]) == [('c', 1), ('c', 0xab)]))
+            chk.check(is_hex(got['bytes']) and is_hex(got['bytearray']), 'JSON-TYPES', 'hook::bytes', file=MSG, line=hookf.fn.lineno, func='to_json.default', expected='bytes / bytearray -> lower-case hex text',
+                      found={k: repr(got[k][1])[:40] for k in ('bytes', 'bytearray')})
+            oktd = got['timedelta'][0] == 'return' and isinstance(got['timedelta'][1], A.AObj) and got['timedelta'][1].attrs.get('total_seconds_of') is td
+            chk.check(oktd, 'JSON-TYPES', 'hook::timedelta', file=MSG, line=hookf.fn.lineno, func='to_json.default', expected='timedelta -> total_seconds()', found=repr(got['timedelta'])[:80])
+            chk.check(got['other'] == ('raise', 'TypeError'), 'JSON-TYPES', 'hook::otherwise-TypeError', file=MSG, line=hookf.fn.lineno, func='to_json.default',
+                      expected='raise TypeError for anything else (orjson contract)', found=repr(got['other'])[:60])
+    # ---- from_json
+    f1 = A.ADict({'id': A.AStr([('lit', 'a')]), 'value': A.AInt(1)}); f2 = A.ADict({'id': A.AStr([('lit', 'b')]), 'value': A.AInt(2)})
+    made = []
+    def hook2(it, call, env):
+        name = ast.unparse(call.func)
+        if name == 'orjson.loads':
+            return A.ADict({'PGN': A.AInt(7), 'id': A.AStr([('lit', 'x')]), 'fields': A.AList([f1, f2])})
+        if name in ('NMEA2000Message', 'NMEA2000Field', 'cls'):
+            srcs = [it.expr(k.value, env) for k in call.keywords if k.arg is None]
+            o = A.AObj()
+            o.attrs['__class__'] = 'NMEA2000Message' if name in ('NMEA2000Message', 'cls') else 'NMEA2000Field'
+            o.attrs['__from__'] = srcs[0] if len(srcs) == 1 and not call.args and all(k.arg is None for k in call.keywords) else None
+            if isinstance(o.attrs['__from__'], A.ADict):
+                for k_, v_ in o.attrs['__from__'].items.items():
+                    o.attrs[k_] = v_
+            made.append(o)
+            return o
+        return NotImplemented
+    try:
+        args = [A.AStr([('lit', '{}')])] if len(fj.args.args) == 1 else [A.AOpaque('cls'), A.AStr([('lit', '{}')])]
+        m2 = A.Interp(hook=hook2, skip=is_logger, module=menv).call_function(fj, args)
+    except (A.Unknown, A.RaiseSignal) as u:
+        chk.unknown('JSON-BACK', 'from_json', f"not interpretable: {u}", MSG, fj.lineno)
+        return True
+    flds = m2.attrs.get('fields') if isinstance(m2, A.AObj) else None
+    okb = isinstance(m2, A.AObj) and m2.attrs.get('__class__') == 'NMEA2000Message' and isinstance(m2.attrs.get('__from__'), A.ADict) and isinstance(flds, A.AList) and len(flds.items) == 2 \
+        and all(isinstance(x, A.AObj) and x.attrs.get('__class__') == 'NMEA2000Field' for x in flds.items) and flds.items[0].attrs.get('__from__') is f1 and flds.items[1].attrs.get('__from__') is f2
+    chk.check(okb, 'JSON-BACK', 'from_json', file=MSG, line=fj.lineno, func='from_json', expected='NMEA2000Message(**data) whose fields are [NMEA2000Field(**f) for f in data["fields"]], in order',
+              found='ok' if okb else {'result': repr(m2)[:40], 'fields': repr(flds)[:80]})
+    return True
+
 def json_rules(chk, program):
     tj = program.fn('message', 'NMEA2000Message.to_json')
+    sem = json_semantic(chk, program)
+    real = chk
+    if sem:
+        # the spelling-level reading of to_json / from_json below is replaced by the interpretation above; the option flags and the producer inventory remain
+        from ..rules_reasm import _ConfirmOnly
+        chk = _ConfirmOnly(real, set())
     hook = [n for n in ast.walk(tj) if isinstance(n, ast.FunctionDef) and n is not tj]
     dumps = [n for n in ast.walk(tj) if isinstance(n, ast.Call) and ast.unparse(n.func) == 'orjson.dumps']
     okd = len(dumps) == 1 and len(hook) == 1 and any(k.arg == 'default' and isinstance(k.value, ast.Name) and k.value.id == hook[0].name for k in dumps[0].keywords)
@@ -164,6 +266,7 @@ def json_rules(chk, program):
     NARROWING = ('OPT_STRICT_INTEGER', 'OPT_PASSTHROUGH_DATACLASS', 'OPT_PASSTHROUGH_DATETIME', 'OPT_PASSTHROUGH_SUBCLASS')
     HARMLESS = ('OPT_INDENT_2', 'OPT_SORT_KEYS', 'OPT_NAIVE_UTC', 'OPT_UTC_Z', 'OPT_OMIT_MICROSECONDS', 'OPT_NON_STR_KEYS', 'OPT_SERIALIZE_NUMPY')
     for d in dumps:
+        chk_saved, chk = chk, real
         opt = [k.value for k in d.keywords if k.arg == 'option'] + (list(d.args[2:3]) if len(d.args) > 2 else [])
         flags = [n.attr for o in opt for n in ast.walk(o) if isinstance(n, ast.Attribute) and n.attr.startswith('OPT_')]
         unknown = [f for f in flags if f not in NARROWING and f not in HARMLESS and f != 'OPT_APPEND_NEWLINE']
@@ -172,6 +275,7 @@ def json_rules(chk, program):
         bad = [f for f in flags if f in NARROWING or f == 'OPT_APPEND_NEWLINE']
         chk.check(not bad, 'JSON-TYPES', 'to_json::options', file=MSG, line=d.lineno, func='to_json', expected='no option that narrows the accepted values or alters the text',
                   found=bad or 'none', detail='' if not bad else 'OPT_STRICT_INTEGER rejects integers beyond 53 bits (64-bit NAME of a source identity, 64-bit fields); PASSTHROUGH options route native types to the hook, which raises')
+        chk = chk_saved
     if hook:
         h = hook[0]
         handled = {}
@@ -189,6 +293,8 @@ def json_rules(chk, program):
         chk.check(isinstance(last, ast.Raise) and 'TypeError' in ast.unparse(last), 'JSON-TYPES', 'hook::otherwise-TypeError', file=MSG, line=last.lineno, func='to_json.default',
                   expected='raise TypeError for anything else (orjson contract)', found=ast.unparse(last)[:60])
     # producer return-type inventory: decode helpers of utils + int_to_bytes
+    chk_before_inventory = chk
+    chk = real
     native = {'int', 'float', 'str', 'bytes', 'date', 'time', 'None', 'bool'}
     inv = {}
     u = program.mod('utils')
@@ -204,6 +310,7 @@ def json_rules(chk, program):
         chk.check(kinds <= native | {'tuple'}, 'JSON-TYPES', f"producer::{name}", file='nmea2000/utils.py', line=fnn.lineno, func=name,
                   expected='returns only int/float/str/bytes/date/time/None', found=sorted(kinds))
     chk.unit('producer_return_kinds', inv)
+    chk = chk_before_inventory
     fj = program.fn('message', 'NMEA2000Message.from_json')
     src = ast.unparse(fj)
     ok1 = any(isinstance(n, ast.Call) and ast.unparse(n.func) == 'NMEA2000Message' and any(k.arg is None for k in n.keywords) for n in ast.walk(fj))
